@@ -5,7 +5,9 @@ import (
 	"bytes"
 	"compress/gzip"
 	"encoding/json"
+	"errors"
 	"fmt"
+	"hash/fnv"
 	"io"
 	"math/rand"
 	"os"
@@ -70,6 +72,33 @@ type eofCounter struct {
 	r       io.Reader
 	eof     bool
 	postEOF int
+	chunk   int   // > 0: at most this many bytes per Read (a pipe or socket delivering little at a time)
+	failAt  int   // >= 0: after this many bytes the source fails with failErr instead of going on
+	failErr error // what it fails with
+	given   int
+}
+
+var errInjectedRead = errors.New("verif: injected read error")
+
+// newEC wraps a document; one document in four is delivered a few bytes at a time, one in eight breaks off
+// with a read error (not end of input) at a position derived from the document itself.
+func newEC(doc string) *eofCounter {
+	h := fnv.New32a()
+	h.Write([]byte(doc))
+	v := h.Sum32()
+	e := &eofCounter{r: strings.NewReader(doc), failAt: -1}
+	switch v % 8 {
+	case 1, 2:
+		e.chunk = 1 + int(v>>8)%7
+	case 3:
+		if len(doc) > 0 {
+			e.failAt, e.failErr = int(v>>8)%len(doc), errInjectedRead
+			if (v>>4)%2 == 0 {
+				e.failErr = io.ErrUnexpectedEOF
+			}
+		}
+	}
+	return e
 }
 
 func (e *eofCounter) Read(p []byte) (int, error) {
@@ -78,9 +107,25 @@ func (e *eofCounter) Read(p []byte) (int, error) {
 		if e.postEOF > eofLimit {
 			panic("verif: post-EOF read limit: the parser keeps reading after end of input")
 		}
+		if e.failErr != nil && e.failAt >= 0 && e.given >= e.failAt {
+			return 0, e.failErr
+		}
 		return 0, io.EOF
 	}
+	if e.chunk > 0 && len(p) > e.chunk {
+		p = p[:e.chunk]
+	}
+	if e.failAt >= 0 {
+		if e.given >= e.failAt {
+			e.eof = true // from here on every read is counted like a read after the end
+			return 0, e.failErr
+		}
+		if len(p) > e.failAt-e.given {
+			p = p[:e.failAt-e.given]
+		}
+	}
 	n, err := e.r.Read(p)
+	e.given += n
 	if err == io.EOF {
 		e.eof = true
 	}
@@ -579,6 +624,14 @@ func guard02(o *Obs, what, format, doc string, fn func()) (panicked bool) {
 
 func c02Feed(c *Ctx, o *Obs, doc, f string) {
 	fid := c02FormatID[f]
+	switch m := newEC(doc); {
+	case m.chunk > 0:
+		o.Ev("source:a_few_bytes_per_read", 1)
+	case m.failAt >= 0:
+		o.Ev("source:read_error_midway", 1)
+	default:
+		o.Ev("source:plain", 1)
+	}
 	var delivered []*tree.Tree
 	maxPost := 0
 	note := func(e *eofCounter) {
@@ -589,7 +642,7 @@ func c02Feed(c *Ctx, o *Obs, doc, f string) {
 	syncPanic := false
 	// (a) the format's parser
 	{
-		ec := &eofCounter{r: strings.NewReader(doc)}
+		ec := newEC(doc)
 		syncPanic = guard02(o, "Parser.Parse", f, doc, func() {
 			switch f {
 			case "newick":
@@ -644,7 +697,7 @@ func c02Feed(c *Ctx, o *Obs, doc, f string) {
 	}
 	// (b) ReadTreeReader
 	{
-		ec := &eofCounter{r: strings.NewReader(doc)}
+		ec := newEC(doc)
 		syncPanic = guard02(o, "ReadTreeReader", f, doc, func() {
 			t, err := utils.ReadTreeReader(bufio.NewReader(ec), fid)
 			o.Ev(outcome("single:"+f, err), 1)
@@ -659,7 +712,7 @@ func c02Feed(c *Ctx, o *Obs, doc, f string) {
 	}
 	// (c) the line splitter of the multi-tree Newick reader, in this goroutine first
 	if f == "newick" {
-		ec := &eofCounter{r: strings.NewReader(doc)}
+		ec := newEC(doc)
 		syncPanic = guard02(o, "ReadUntilSemiColon", f, doc, func() {
 			br := bufio.NewReader(ec)
 			n := 0
@@ -684,7 +737,7 @@ func c02Feed(c *Ctx, o *Obs, doc, f string) {
 	if syncPanic {
 		o.Ev("multi_skipped_after_sync_panic", 1)
 	} else {
-		ec := &eofCounter{r: strings.NewReader(doc)}
+		ec := newEC(doc)
 		ch := utils.ReadMultiTrees(bufio.NewReader(ec), fid)
 		items, errs := 0, 0
 		closed := false
